@@ -11,7 +11,7 @@ CLAUSES = {
     'C02': {'Resolve404', 'Method', 'Allow', 'Outcome'},
     'C11': {'Resolve404', 'Route', 'Params', 'Method', 'Allow', 'Hooks', 'IndexAgree', 'Outcome'},
 }
-VERBS = ['GET', 'HEAD', 'POST', 'DELETE', 'get', 'Head', 'PURGE', 'trace']      # incl. verbs outside the standard set: they fall back to ANY too
+VERBS = ['GET', 'HEAD', 'POST', 'DELETE', 'get', 'Head', 'PURGE', 'trace', 'LOCK', 'UNLOCK']      # incl. verbs outside the standard set: they fall back to ANY too
 TOKEN = rl.TOKEN
 
 
@@ -30,7 +30,8 @@ def norm_r(r):
 def wsgi_answer(rr, p, v, pat_of):
     """The answer to one request observed through Ombott.__call__ (status, Allow, handler, kwargs, hooks fired), in the
     vocabulary of RouterTrace answers."""
-    c = rr.call(p, v, accept=[None, 'application/json', 'text/html', '*/*'][(len(p) + len(v)) % 4])
+    c = rr.call(p, v, accept=[None, 'application/json', 'text/html', '*/*'][(len(p) + len(v)) % 4],
+                forwarded_from=[None, 'GET', 'POST', 'DELETE'][(len(p) * 3 + len(v)) % 4])
     a = {'path': p, 'verb': v.upper(), 'h': '', 'route': [], 'params': [], 'allow': [], 'hooks': []}
     if c['status'] == 404:
         a['k'] = '404'
@@ -256,7 +257,8 @@ def rand_universe(rng, n, with_methods=False):
             seen.add(names[j])
         meths = ['GET']
         if with_methods:
-            meths = rng.sample(['GET', 'HEAD', 'POST', 'PUT', 'ANY', 'get', 'Post'], rng.randint(1, 3))
+            # incl. extension verbs one of whose names contains the other
+            meths = rng.sample(['GET', 'HEAD', 'POST', 'PUT', 'ANY', 'get', 'Post', 'LOCK', 'UNLOCK', 'LINK', 'UNLINK'], rng.randint(1, 4))
         uni.append({'id': 'u%d' % i, 'pat': pat, 'filters': filters, 'names': names,
                     'meths': sorted(set(m.upper() for m in meths)), 'meths_spelled': meths,
                     'name': rng.choice(['', '', '', 'nm1', 'nm2', 'nm%d' % i])})
@@ -448,6 +450,10 @@ def run(chk, pid):
                 # the same pattern and verbs registered again under other wildcard names: the handler that answers gets ITS names
                 r3 = dict(r, id=r['id'] + 'w', names=[(n + 'w') if n else n for n in r['names']], name='')
                 ops += [{'op': 'add', 'r': r3, 'ow': True, 'spelled': r3.get('meths_spelled')}]
+            if it % 2:
+                rlk = dict(r, id=r['id'] + 'lk', meths=['LINK', 'LOCK', 'UNLINK', 'UNLOCK'], meths_spelled=['LOCK', 'UNLOCK', 'LINK', 'UNLINK'], name='')
+                ops += [{'op': 'add', 'r': rlk, 'ow': True, 'spelled': rlk['meths_spelled']},
+                        {'op': 'remove_method', 'pat': r['pat'], 'meth': rng.choice(['UNLOCK', 'UNLINK'])}]
             ops += rand_history(rng, uni, 3, ['add', 'remove_method', 'remove_rule'])
         elif tmpl == 1 and named:    # names: removal by prefix / rule / name and re-use of the name
             r = rng.choice(named)
@@ -503,7 +509,7 @@ def run(chk, pid):
         if reinstall:
             # every instance of the rule under the re-installed hook
             probes = [q for q in rl.instances([r], [], rng) if q[:len(hp)] == hp][:40] + probes[:4]
-        dverbs = ['GET', 'HEAD', 'POST', 'PUT', 'PURGE']
+        dverbs = ['GET', 'HEAD', 'POST', 'PUT', 'PURGE', 'LOCK', 'UNLOCK', 'LINK']
         t, bad = run_history(rng, ops2, probes, dverbs, 0 if reinstall else len(probes), e2e=0, nverbs=len(dverbs), wsgi_last=True,
                              last_nprobe=len(probes))
         traces.append(t)
